@@ -122,14 +122,17 @@ def extract_iter(
         ):
             origin, current, depth = to_unwrap.popleft()
             if isinstance(current, types.FrameType):
-                if not isinstance(
-                    origin,
-                    (
-                        types.CoroutineType,
-                        types.GeneratorType,
-                        types.AsyncGeneratorType,
-                    ),
-                ):
+                # Only a frame that belongs to a generator or coroutine has
+                # something we can look inside to find it again later
+                if isinstance(origin, types.CoroutineType):
+                    origin_frame = origin.cr_frame
+                elif isinstance(origin, types.GeneratorType):
+                    origin_frame = origin.gi_frame
+                elif isinstance(origin, types.AsyncGeneratorType):
+                    origin_frame = origin.ag_frame
+                else:
+                    origin_frame = None
+                if origin_frame is not current:
                     origin = None
                 current = Frame(pyframe=current, origin=origin)
             if isinstance(current, Frame):
